@@ -274,6 +274,30 @@ fn do_verify(case: &J, out: &mut Out) {
     }
 }
 
+/// the same JSON value: same shape, same members, numbers of the same kind with the same bits
+/// (0.0 and -0.0 are different values although `==` on serde_json::Value / JValue says equal)
+fn same_value(a: &J, b: &J) -> bool {
+    match (a, b) {
+        (J::Number(x), J::Number(y)) => {
+            if let (Some(p), Some(q)) = (x.as_u64(), y.as_u64()) {
+                p == q
+            } else if let (Some(p), Some(q)) = (x.as_i64(), y.as_i64()) {
+                p == q
+            } else if x.is_f64() && y.is_f64() {
+                x.as_f64().map(f64::to_bits) == y.as_f64().map(f64::to_bits)
+            } else {
+                false
+            }
+        }
+        (J::Array(x), J::Array(y)) => x.len() == y.len() && x.iter().zip(y.iter()).all(|(p, q)| same_value(p, q)),
+        (J::Object(x), J::Object(y)) => x.len() == y.len() && x.iter().all(|(k, v)| y.get(k).map(|w| same_value(v, w)).unwrap_or(false)),
+        (J::Null, J::Null) => true,
+        (J::Bool(x), J::Bool(y)) => x == y,
+        (J::String(x), J::String(y)) => x == y,
+        _ => false,
+    }
+}
+
 fn do_ids(case: &J, out: &mut Out) {
     let texts: Vec<String> = case["texts"].as_array().map(|a| a.iter().filter_map(|x| x.as_str().map(String::from)).collect()).unwrap_or_default();
     let vals: Vec<J> = texts.iter().filter_map(|t| serde_json::from_str(t).ok()).collect();
@@ -284,11 +308,16 @@ fn do_ids(case: &J, out: &mut Out) {
         return;
     }
     // only spellings of one and the same value are compared (1 and 1.0 are different values)
-    if !vals.iter().all(|v| *v == vals[0]) {
+    if !vals.iter().all(|v| same_value(v, &vals[0])) {
         let ids: Vec<String> = vals.iter().map(|v| value_to_json_cid(v).map(|c| c.get_inner().to_string()).unwrap_or_default()).collect();
         let all_distinct = ids.iter().all(|i| ids.iter().filter(|j| *j == i).count() == 1);
         out.terms.push("(CIds [])".into());
-        out.classes.push(format!("ids/different_values/{}", if all_distinct { "ids_differ" } else { "some_ids_equal" }));
+        let eq_by_rust = vals.iter().all(|v| *v == vals[0]);
+        out.classes.push(format!(
+            "ids/different_values/{}{}",
+            if all_distinct { "ids_differ" } else { "some_ids_equal" },
+            if eq_by_rust { "/EQUAL_UNDER_PARTIALEQ(signed zero)" } else { "" }
+        ));
         out.infos.push(serde_json::json!({"kind": "ids_different_values", "texts": texts, "ids": ids}));
         return;
     }
